@@ -456,6 +456,17 @@ func runCheck(id, tier, repo, keep string, writeEvidence bool) int {
 	if total == 0 {
 		return engineError(id, "zero obligations")
 	}
+	// contract drift: contracts that no longer fit their functions were ignored (the functions
+	// inlined / verified without them). Never silent: without a violation the verdict is "don't know".
+	if len(eng.drift) > 0 {
+		for _, k := range sortedStrKeys(eng.drift) {
+			fmt.Printf("CONTRACT-DRIFT property=%s %s: %s\n", id, k, eng.drift[k])
+		}
+		if violations+boundedViolations == 0 && exit == 0 {
+			fmt.Printf("ENGINE-ERROR property=%s contract drift and no violation found: the contracts must be brought in line with the code\n", id)
+			exit = 2
+		}
+	}
 	violations += boundedViolations
 	if violations > 0 && exit == 0 {
 		exit = 1
@@ -667,4 +678,13 @@ func writeStaticReplay(id string, s *StaticResult) string {
 	b, _ := json.MarshalIndent(doc, "", " ")
 	os.WriteFile(path, b, 0o644)
 	return path
+}
+
+func sortedStrKeys(m map[string]string) []string {
+	var ks []string
+	for k := range m {
+		ks = append(ks, k)
+	}
+	sort.Strings(ks)
+	return ks
 }
